@@ -118,6 +118,17 @@ impl<'a> Interpreter<'a> {
         }
     }
 
+    /// An interpreter for code that runs on behalf of this one (macro bodies) with
+    /// other contexts. It continues this interpreter's call depth, so programs that
+    /// reference each other through a macro still hit the depth limit.
+    pub fn child<'b>(&self, cel: &'b CelContext, bindings: &'b BindContext) -> Interpreter<'b> {
+        Interpreter {
+            cel: Some(cel),
+            bindings: Some(bindings),
+            depth: ScopedCounter::starting_at(self.depth.count()),
+        }
+    }
+
     pub fn add_bindings(&mut self, bindings: &'a BindContext) {
         self.bindings = Some(bindings);
     }
